@@ -721,6 +721,18 @@ func ruleLayEvalOrder(c *Ctx, r *R) {
 			if strings.HasPrefix(s, "!") && strings.Contains(s, "Call(") {
 				established = true
 			}
+			// !A || !B (the De Morgan form of !(A && B))
+			if t := strings.TrimSuffix(strings.TrimPrefix(s, "("), ")"); strings.Contains(t, " || ") {
+				all := true
+				for _, part := range strings.Split(t, " || ") {
+					if !strings.HasPrefix(part, "!") || !strings.Contains(part, "Call(") {
+						all = false
+					}
+				}
+				if all {
+					established = true
+				}
+			}
 		}
 		if !established && bad == "" {
 			bad = cond
